@@ -23,6 +23,9 @@ type rebuildHook struct {
 	records func(recs []refxz.Record) []refxz.Record
 	count   func(n uint64) uint64
 	footer  func(flag0, flag1 *byte, backward *uint32)
+	// ixExtra makes integers of the index over-long (see refxz.BuildIndexLong);
+	// the footer keeps the backward size of the index in its shortest form
+	ixExtra func(i int) int
 }
 
 func rebuildStream(s []byte, f *refxz.File, si int, h rebuildHook) []byte {
@@ -59,8 +62,11 @@ func rebuildStream(s []byte, f *refxz.File, si int, h rebuildHook) []byte {
 		count = h.count(count)
 	}
 	ix := refxz.BuildIndexCount(recs, count)
-	out = append(out, ix...)
 	f0, f1, bw := byte(0), st.CheckID, uint32(len(ix)/4-1)
+	if h.ixExtra != nil {
+		ix = refxz.BuildIndexLong(recs, count, h.ixExtra)
+	}
+	out = append(out, ix...)
 	if h.footer != nil {
 		h.footer(&f0, &f1, &bw)
 	}
@@ -210,6 +216,16 @@ func structEdits(b *Built, f *refxz.File, r *sim.Rng) []structEdit {
 					refxz.Reseal(img, bhSpan)
 					add("unsupported-filter-id", fmt.Sprintf("%s id %#x", btag, id), img)
 				}
+				// ids of more than one byte whose low byte is the LZMA2 id, and ids in
+				// the reserved range
+				for _, id := range []uint64{0x21 + 256*uint64(r.Range(1, 63)), 0x21 + 1<<uint(r.Range(14, 61)), 0x21 + 1<<62, 1<<63 - 1 - 0xde} {
+					raw := append(refxz.PutVarint(nil, id), 1, s[fp+2])
+					add("unsupported-filter-id", fmt.Sprintf("%s id %#x", btag, id), rebuildStream(s, f, si, rebuildHook{block: func(i int, sp *refxz.BlockSpec) {
+						if i == bi {
+							sp.FilterRaw = raw
+						}
+					}}))
+				}
 				for _, sz := range []byte{0, 2} {
 					img := clone()
 					img[fp+1] = sz
@@ -248,6 +264,26 @@ func structEdits(b *Built, f *refxz.File, r *sim.Rng) []structEdit {
 				return append(recs, refxz.Record{Unpadded: 24, Uncompressed: 0})
 			},
 			count: func(n uint64) uint64 { return n + 1 }}))
+		// the index longer than the backward size says, no value changed: one of
+		// its integers (or two) carries four surplus bytes; the index padding and
+		// CRC32 fit the real length, the footer is the one of the original
+		{
+			nint := 1 + 2*len(st.Blocks)
+			for _, n := range []int{1, 2} {
+				a := r.Intn(nint)
+				c := r.Intn(nint)
+				if n == 1 {
+					c = a
+				}
+				add("backward-size", fmt.Sprintf("%s index integer %d (and %d) four bytes longer than needed, footer unchanged", tag, a, c),
+					rebuildStream(s, f, si, rebuildHook{ixExtra: func(i int) int {
+						if i == a || i == c {
+							return 4
+						}
+						return 0
+					}}))
+			}
+		}
 		// index padding
 		{
 			// padding bytes precede the CRC32; find them by re-walking the index
